@@ -57,10 +57,16 @@ func genC13(repo string) (string, error) {
 		"adjustRule", "setRule", "deleteRule", "setGroup", "deleteGroup", "iterateRules",
 		"SaveRule", "DeleteRule", "SaveRuleGroup", "DeleteRuleGroup", "LoadRules", "LoadRuleGroups", "isDefault",
 		"loadRules", "loadGroups"),
-		Assigns: set("ruleList", "initialized", "rules", "groups"), Conds: true}
+		Assigns: set("ruleList", "initialized", "rules", "groups", "keyType"), Conds: true}
 	for _, fn := range []string{"tryCommitPatch", "savePatch", "Initialize", "loadRules", "loadGroups",
 		"SetRule", "DeleteRule", "SetRules", "Batch", "SetRuleGroup", "DeleteRuleGroup",
-		"SetAllGroupBundles", "SetGroupBundle", "DeleteGroupBundle"} {
+		"SetAllGroupBundles", "SetGroupBundle", "DeleteGroupBundle",
+		// the readers
+		"GetRule", "GetSplitKeys", "GetAllRules", "GetRulesByGroup", "GetRulesByKey", "GetRulesForApplyRegion",
+		"GetRuleGroup", "GetRuleGroups", "GetAllGroupBundles", "GetGroupBundle", "IsInitialized", "SetKeyType"} {
+		if fd, err := rm.Func("RuleManager", fn); err == nil {
+			c12Normalize(fd) // log lines and local names do not enter the obligation
+		}
 		if err := o.skeleton(rm, "RuleManager", fn, "skel_"+fn, opt); err != nil {
 			return "", err
 		}
@@ -105,28 +111,9 @@ func genC13(repo string) (string, error) {
 		o.strList(nm, c12Body(b.f, fd), b.f.Path+": statements of ("+b.recv+")."+b.name)
 	}
 
-	// the content checks of adjustRule, in order: every `if cond { return errs... }`
-	adj, err := rm.Func("RuleManager", "adjustRule")
+	checks, err := c13AdjustChecks(rm)
 	if err != nil {
 		return "", err
-	}
-	var checks []string
-	ast.Inspect(adj.Body, func(n ast.Node) bool {
-		is, ok := n.(*ast.IfStmt)
-		if !ok {
-			return true
-		}
-		for _, s := range is.Body.List {
-			if rs, ok := s.(*ast.ReturnStmt); ok && len(rs.Results) == 1 {
-				if strings.HasPrefix(rm.Src(rs.Results[0]), "errs.") {
-					checks = append(checks, rm.Src(is.Cond))
-				}
-			}
-		}
-		return true
-	})
-	if len(checks) == 0 {
-		return "", fmt.Errorf("%s: adjustRule: no content check found", rm.Path)
 	}
 	o.strList("adjust_rule_checks", checks, rm.Path+": conditions of adjustRule that reject a rule, source order")
 
@@ -203,13 +190,20 @@ func genC13(repo string) (string, error) {
 	if err != nil {
 		return "", err
 	}
+	// (after normalisation nextKey is the first local declared in the body: the variable assigned by the first statement)
 	var nexts []string
+	nextName := ""
+	if as, ok := lrp.Body.List[0].(*ast.AssignStmt); ok && len(as.Lhs) == 1 {
+		if id, ok := as.Lhs[0].(*ast.Ident); ok {
+			nextName = id.Name
+		}
+	}
 	ast.Inspect(lrp.Body, func(n ast.Node) bool {
 		as, ok := n.(*ast.AssignStmt)
 		if !ok || len(as.Lhs) != 1 || len(as.Rhs) != 1 {
 			return true
 		}
-		if id, ok := as.Lhs[0].(*ast.Ident); ok && id.Name == "nextKey" {
+		if id, ok := as.Lhs[0].(*ast.Ident); ok && nextName != "" && id.Name == nextName {
 			nexts = append(nexts, as.Tok.String()+" "+st.Src(as.Rhs[0]))
 		}
 		return true
@@ -227,4 +221,32 @@ func genC13(repo string) (string, error) {
 		o.strList("body_"+b.recv+"_"+b.name, c12Body(b.f, fd), b.f.Path+": statements of ("+b.recv+")."+b.name)
 	}
 	return o.sb.String(), nil
+}
+
+// c13AdjustChecks lists, in source order, the conditions of adjustRule that reject a rule: every `if cond { return errs... }`.
+func c13AdjustChecks(rm *goast.File) ([]string, error) {
+	adj, err := rm.Func("RuleManager", "adjustRule")
+	if err != nil {
+		return nil, err
+	}
+	c12Normalize(adj)
+	var checks []string
+	ast.Inspect(adj.Body, func(n ast.Node) bool {
+		is, ok := n.(*ast.IfStmt)
+		if !ok {
+			return true
+		}
+		for _, s := range is.Body.List {
+			if rs, ok := s.(*ast.ReturnStmt); ok && len(rs.Results) == 1 {
+				if strings.HasPrefix(rm.Src(rs.Results[0]), "errs.") {
+					checks = append(checks, rm.Src(is.Cond))
+				}
+			}
+		}
+		return true
+	})
+	if len(checks) == 0 {
+		return nil, fmt.Errorf("%s: adjustRule: no content check found", rm.Path)
+	}
+	return checks, nil
 }
